@@ -13,7 +13,7 @@ EXTENDS SchemaSem, TLC
 
 (* insert / replace key in an object value, keeping keys sorted: keys are drawn from a fixed   *)
 (* small alphabet whose order is given by KeyOrder                                            *)
-KeyOrder == <<"a", "b", "c", "cfg", "k", "l", "o", "q", "r", "ro", "t", "z">>
+KeyOrder == <<"a", "b", "c", "cfg", "k", "l", "o", "q", "r", "ro", "t", "x", "y", "z">>      \* ("x", "y": the keys of the C01 universe)
 Pos(key) == CHOOSE i \in DOMAIN KeyOrder : KeyOrder[i] = key
 RECURSIVE InsertAt(_, _, _, _)
 InsertAt(ks, vs, key, val) ==
